@@ -174,3 +174,39 @@ Example ex_not_normalised :
   not_normalised (VGoInt GInt8 3) = true /\ not_normalised (VGoInt GUint64 3) = true /\
   not_normalised (VStr (str "x")) = true /\ not_normalised (VGoInt GInt 3) = false.
 Proof. vm_compute. repeat split. Qed.
+
+(* ---------------- C16: Go struct values ---------------- *)
+
+(* rec = { user: User{Name: 'ann', Age: int 30, Address: Address{City: 'Oslo', Zip: int 150},
+                      Boss: a nil pointer to User, secret: ...} } where Address is embedded, so that its
+   fields City and Zip are promoted; the unexported field `secret` is not selectable and so is
+   not listed.
+   rec.user.Name = 'ann'; .Age = 30 (normalised); .City = 'Oslo' (promoted) = .Address.City;
+   .Boss = null (typed nil) and .Boss.Name = null; rec.user!.Name is fine;
+   .secret and .name (no such exported field) panic inside and are errors at the entry;
+   typeof rec.user = 'object'; rec.user == rec.user is not modelled *)
+Example ex_struct_member :
+  let addr := VStruct 2 [(str "City", VStr (str "Oslo")); (str "Zip", VGoInt GInt 150)] in
+  let user := VStruct 1 [(str "Name", VStr (str "ann")); (str "Age", VGoInt GInt 30); (str "Address", addr);
+                         (str "City", VStr (str "Oslo")); (str "Zip", VGoInt GInt 150); (str "Boss", VNilPtr)] in
+  let st := mkR (Some [(str "rec", VMap [(str "user", user)])]) [] in
+  let u := dot (idt "rec") "user" in
+  eval [] 0 u st = (Ok user, st) /\
+  eval [] 0 (dot u "Name") st = (Ok (VStr (str "ann")), st) /\
+  eval [] 0 (dot u "Age") st = (Ok (VNum (Fin false 30 0)), st) /\
+  eval [] 0 (dot u "City") st = (Ok (VStr (str "Oslo")), st) /\
+  eval [] 0 (dot (dot u "Address") "City") st = (Ok (VStr (str "Oslo")), st) /\
+  eval [] 0 (dot (dot u "Address") "Zip") st = (Ok (VNum (Fin false 150 0)), st) /\
+  eval [] 0 (dot u "Boss") st = (Ok VNull, st) /\
+  eval [] 0 (dot (dot u "Boss") "Name") st = (Ok VNull, st) /\
+  eval [] 0 (bangdot u "Name") st = (Ok (VStr (str "ann")), st) /\
+  eval [] 0 (bangdot (dot u "Boss") "Name") st = (Err, st) /\
+  eval [] 0 (dot u "secret") st = (Panic, st) /\
+  resolve_entry [] 0 (dot u "secret") st = (Err, st) /\
+  eval [] 0 (dot u "name") st = (Panic, st) /\
+  eval [] 0 (dot (dot u "Address") "Street") st = (Panic, st) /\
+  resolve_entry [] 0 (dot (dot u "Address") "Street") st = (Err, st) /\
+  eval [] 0 (STypeof u) st = (Ok (VStr (str "object")), st) /\
+  eval [] 0 (SBin u KEqEq u) st = (Unk, st) /\
+  state_maps_only st = false.
+Proof. vm_compute. repeat split. Qed.
